@@ -74,9 +74,12 @@ def one_trace(tid, n, L, plus, rng, iters, root: Path, integer_terminals: bool, 
         try:
             for nid in sample:
                 pre_cur[nid] = np.array(rm.regret_matching_strategy(int(nid)), dtype=np.float64)
-            if it == iters - 1 and iters > 1:                 # save -> load -> both continue with the same terminal values
-                p = root / f"rm{tid}"
-                shutil.rmtree(p, ignore_errors=True)
+            if it >= 1:              # checkpoint -> load -> both continue with the same terminal values; checkpoints are repeated
+                # into the SAME directory as a long run does, and for every other trace into a directory shared by all traces
+                # (it then holds an older checkpoint of another minimiser)
+                p = root / (f"rm{tid}" if tid % 2 else "shared_checkpoint")
+                if it == 1 and tid % 2:
+                    shutil.rmtree(p, ignore_errors=True)
                 rm.save(p)
                 twin = GameRegretMinimizer.load(p)
                 twin.regret_min_iteration(tv.copy(), used)
@@ -86,7 +89,8 @@ def one_trace(tid, n, L, plus, rng, iters, root: Path, integer_terminals: bool, 
             if twin is not None:
                 same = (np.array_equal(twin.cumulative_regret, rm.cumulative_regret, equal_nan=True)
                         and np.array_equal(twin.cumulative_strategy, rm.cumulative_strategy, equal_nan=True) and twin.iteration == rm.iteration
-                        and twin.cumulative_regret.dtype == rm.cumulative_regret.dtype)
+                        and twin.cumulative_regret.dtype == rm.cumulative_regret.dtype
+                        and (twin.number_of_players, twin.limit_of_revealed, bool(twin.plus)) == (rm.number_of_players, rm.limit_of_revealed, bool(rm.plus)))
                 ev["saveload"] = int(same)
             reg_now = np.array(rm.cumulative_regret, dtype=np.float64)
             for nid in sample:
